@@ -1509,7 +1509,7 @@ class optical_signal(electrical_signal):
                 return optical_signal( self.signal[slice] )
             return optical_signal( self.signal[slice], self.noise[slice] )
         
-        elif isinstance(slice, int):
+        elif isinstance(slice, (int, np.integer)):
             if self.noise is None:
                 return optical_signal( self.signal[:,slice,np.newaxis] )
             return optical_signal( self.signal[:,slice,np.newaxis], self.noise[:,slice,np.newaxis] )
